@@ -420,3 +420,113 @@ def reach_avoiding(body, start, avoid):
     if start in avoid:
         return set()
     return body.reachable(start, avoid=avoid)
+
+
+# ---- guard facts (analysis C) ------------------------------------------------------------
+from .mir import same_expr as _same_expr
+
+_REL_NEG = {"Lt": "Ge", "Le": "Gt", "Gt": "Le", "Ge": "Lt", "Eq": "Ne", "Ne": "Eq"}
+_REL_SWAP = {"Lt": "Gt", "Le": "Ge", "Gt": "Lt", "Ge": "Le", "Eq": "Eq", "Ne": "Ne"}
+MIN_CALLS = {"std::cmp::min", "std::cmp::Ord::min"}
+MAX_CALLS = {"std::cmp::max", "std::cmp::Ord::max"}
+
+
+def edge_facts(body):
+    """List of ((switch_bb, target_bb), (rel, a, b)) for comparison switches, and
+    ((s,t), ('IntEq'|'IntNe', a, const)) for integer switches, ((s,t), ('Bool', call_expr, value))
+    for switches on a bool call result (is_empty & co)."""
+    if getattr(body, "_edge_facts", None) is not None:
+        return body._edge_facts
+    out = []
+    for s in sorted(body.reachable(0)):
+        t = body.term(s)
+        if t["k"] != "switch":
+            continue
+        e = peel(switch_discr_expr(body, s), through_try=False)
+        if t.get("dty") == "bool":
+            bt = bool_edge_targets(body, s)
+            if not bt or bt[0] == bt[1]:
+                continue
+            neg = False
+            while e.k == "un" and e.op == "Not":
+                neg = not neg
+                e = peel(e.a, through_try=False)
+            tr, fa = (bt[1], bt[0]) if neg else bt
+            if e.k == "bin" and e.op in _REL_NEG:
+                out.append(((s, tr), (e.op, e.a, e.b)))
+                out.append(((s, fa), (_REL_NEG[e.op], e.a, e.b)))
+            elif e.k == "call":
+                out.append(((s, tr), ("Bool", e, True)))
+                out.append(((s, fa), ("Bool", e, False)))
+        else:
+            # integer / discriminant switch
+            vals = [v for v, _ in t["targets"]]
+            for v, tgt in t["targets"]:
+                if [x for x, tg in t["targets"] if tg == tgt] == [v] and tgt != t["else"]:
+                    out.append(((s, tgt), ("IntEq", e, v)))
+            if t["else"] not in [tg for _, tg in t["targets"]]:
+                for v in vals:
+                    out.append(((s, t["else"]), ("IntNe", e, v)))
+    body._edge_facts = out
+    return out
+
+
+def facts_at(body, bb):
+    """Facts established on every path from entry to bb."""
+    cache = getattr(body, "_facts_at", None)
+    if cache is None:
+        cache = body._facts_at = {}
+    if bb in cache:
+        return cache[bb]
+    res = []
+    for edge, fact in edge_facts(body):
+        if must_pass_edge(body, bb, edge):
+            res.append(fact)
+    cache[bb] = res
+    return res
+
+
+def _const_of(e):
+    e = peel(e, through_try=False)
+    if e is not None and e.k == "const" and isinstance(e.v, int) and not isinstance(e.v, bool):
+        return e.v
+    return None
+
+
+def known_ge(body, bb, a, b):
+    """Is a >= b established at bb (by dominating guards or by construction b = min(a, ..))?"""
+    pa, pb = peel(a, through_try=False), peel(b, through_try=False)
+    cb = _const_of(pb)
+    if cb == 0:
+        return True
+    # b = min(a, x)
+    if pb.k == "call" and (pb.q in MIN_CALLS or pb.rq in MIN_CALLS) and any(_same_expr(x, pa) for x in pb.args):
+        return True
+    if pa.k == "call" and (pa.q in MAX_CALLS or pa.rq in MAX_CALLS) and any(_same_expr(x, pb) for x in pa.args):
+        return True
+    for fact in facts_at(body, bb):
+        rel = fact[0]
+        if rel in _REL_NEG:
+            x, y = fact[1], fact[2]
+            if _same_expr(x, pa) and _same_expr(y, pb) and rel in ("Ge", "Gt", "Eq"):
+                return True
+            if _same_expr(x, pb) and _same_expr(y, pa) and rel in ("Le", "Lt", "Eq"):
+                return True
+            if cb is not None:
+                cy = _const_of(y)
+                cx = _const_of(x)
+                if _same_expr(x, pa) and cy is not None:
+                    if (rel == "Ge" and cy >= cb) or (rel == "Gt" and cy >= cb - 1) or (rel == "Ne" and cy == 0 and cb == 1) or (rel == "Eq" and cy >= cb):
+                        return True
+                if _same_expr(y, pa) and cx is not None:
+                    if (rel == "Le" and cx >= cb) or (rel == "Lt" and cx >= cb - 1) or (rel == "Ne" and cx == 0 and cb == 1) or (rel == "Eq" and cx >= cb):
+                        return True
+        elif rel == "IntNe" and cb == 1 and fact[2] == 0 and _same_expr(fact[1], pa):
+            return True
+        elif rel == "IntEq" and cb is not None and fact[2] >= cb and _same_expr(fact[1], pa):
+            return True
+    return False
+
+
+def known_nonzero(body, bb, a):
+    return known_ge(body, bb, a, E("const", v=1, ty="usize"))
